@@ -228,7 +228,11 @@ def run_case(case):
                         atol = {"pdb": 0.5e-2, "pdb.gz": 0.5e-2, "gro": 2e-3, "lammpstrj": 1e-3, "xtc": 1e-4, "trr": 1e-4, "dcd": 1e-4, "rst7": 1e-6}.get(fmt, 2e-5) + 1e-5
                         gL, gA = np.array(loaded.unitcell_lengths, dtype=np.float64), np.array(loaded.unitcell_angles, dtype=np.float64)
                         if gL.shape != eL.shape or (np.abs(gL - eL) > ltol).any() or (np.abs(gA - eA) > atol).any():
-                            viol.append(("%s/cell" % fmt, "loaded cell %s %s, saved %s %s" % (gL[0], gA[0], eL[0], eA[0])))
+                            k = 0
+                            if gL.shape == eL.shape:
+                                bad = ((np.abs(gL - eL) > ltol) | (np.abs(gA - eA) > atol)).any(axis=1)
+                                k = int(np.argmax(bad))
+                            viol.append(("%s/cell" % fmt, "frame %d: loaded cell %s %s, saved %s %s" % (k, gL[min(k, len(gL) - 1)], gA[min(k, len(gA) - 1)], eL[k], eA[k])))
                 elif cap["cell"] and not complete_cell and loaded.unitcell_lengths is not None and fmt not in ("dtr",):
                     if np.abs(loaded.unitcell_lengths).max() > 0:
                         viol.append(("%s/cell-fabricated" % fmt, "saved without a cell, loaded with %s" % loaded.unitcell_lengths[0]))
